@@ -424,7 +424,12 @@ func (s *LinearState) doFindRules(ctx *Context, event Map) (map[string]Map, erro
 				// results as already match-processed.
 				bss, err := Matches(ctx, pattern, event)
 				if err != nil {
-					return nil, err
+					// This rule's pattern can't be
+					// matched (against this event).
+					// Not a reason to fail the event
+					// for all the other rules.
+					Log(ERROR, ctx, "LinearState.FindRules", "name", s.Name, "id", id, "error", err, "when", "Matches")
+					continue
 				}
 				if 0 < len(bss) {
 					acc[id] = r
